@@ -666,6 +666,8 @@ class Replayer:
         if with_read:
             try:
                 st["readback"] = self.readback()
+                if "R11" in checks:
+                    st["rbsel"] = self.readback_by_label()
             except Exception as exc:  # pylint: disable=broad-except
                 # the dataset cannot be read back after a completed session: a finding, not a harness failure
                 self.problems.append(("readback-raised", f"reading the dataset back raised {type(exc).__name__}: "
@@ -684,6 +686,32 @@ class Replayer:
             for ex in ds.as_numpy_iterator(split=split, shuffle=0, repeat=False):
                 ids.append(int(np.asarray(ex["id"]).reshape(-1)[0]))
             out[split] = ids
+        return out
+
+    def readback_by_label(self) -> dict:
+        """Selection by shard-level metadata THROUGH THE LIBRARY (C11's 'consequently ...'): for every split and each of
+        the labels A, B the ids yielded when only the shards recorded with that label are selected (R11)."""
+        from sedpack.io import Dataset
+        out = {}
+        ds = Dataset(self.root)
+        for split in ("train", "test", "holdout"):
+            if split not in ds._dataset_info.splits:  # pylint: disable=protected-access
+                continue
+            seen = []
+
+            def record(si, seen=seen):
+                seen.append(md_name(si.custom_metadata))
+                return True
+            n_all = sum(1 for _ in ds.as_numpy_iterator(split=split, shuffle=0, repeat=False, shard_filter=record))
+            out[split] = {}
+            for m in ("A", "B"):
+                if m not in seen:
+                    out[split][m] = []      # (a selection matching no shard is an error by C12; nothing to read)
+                    continue
+                out[split][m] = [int(np.asarray(ex["id"]).reshape(-1)[0]) for ex in ds.as_numpy_iterator(
+                    split=split, shuffle=0, repeat=False,
+                    shard_filter=lambda si, m=m: md_name(si.custom_metadata) == m)]
+            del n_all
         return out
 
 
